@@ -445,10 +445,7 @@ def run(chk, runner_ok):
     # every localized sequence against the reference panel
     ln = chk.n(3, 4)
     for l in seqs(FULL, ln):
-        if chk.thorough and len(l) == 4:
-            picks = [rng.choice(panel)]           # 38k sequences of length 4: one reference each
-        else:
-            picks = panel if len(l) < 3 else rng.sample(panel, 3)
+        picks = panel if len(l) < 4 else rng.sample(panel, 2)   # 38k sequences of length 4
         for r in picks:
             cases.append((r, l, None, None))
     n_l10n = len(cases)
@@ -460,14 +457,18 @@ def run(chk, runner_ok):
     for r, l in pairs[rng.randrange(step)::step]:
         cases.append((r, l, None, None))
     n_args = len(cases) - n_l10n
-    # every pair over the whole alphabet, shorter
-    fn = chk.n(1, 2)
+    # every pair over the whole alphabet up to 2+2 tokens; 3+3 sampled
+    fn = 2
     fseq = list(seqs(FULL, fn))
     for r in fseq:
         for l in fseq:
             for rf, lf in ((None, None), ("false", None), (None, "false"), ("true", "true")):
                 if (rf, lf) == (None, None) or len(r) + len(l) <= 2:
                     cases.append((r, l, rf, lf))
+    f3 = list(seqs(FULL, 3))
+    n33 = chk.n(20000, 150000)
+    for _ in range(n33):
+        cases.append((rng.choice(f3), rng.choice(f3), None, None))
     # flags on a sample of what is above
     for r, l, _, _ in rng.sample(cases, chk.n(600, 6000)):
         cases.append((r, l, rng.choice(FLAGS), rng.choice(FLAGS)))
@@ -477,12 +478,14 @@ def run(chk, runner_ok):
         if k not in seen:
             seen.add(k)
             uniq.append(c)
-    chk.notes.append(f"ANDROID-CHECK: {n_l10n} (localized sequence <= {ln} tokens x reference panel; "
-                     f"sequences of the top length are paired with a sample of the panel), {n_args} "
-                     f"argument-sequence pairs <= {an}+{an} tokens"
+    chk.notes.append(f"ANDROID-CHECK: {n_l10n} (every localized sequence <= {ln} tokens over the 14-token "
+                     f"alphabet x a panel of {len(panel)} references; length-4 sequences x 2 sampled "
+                     f"references), {n_args} argument-sequence pairs <= {an}+{an} tokens"
                      + (" (every third pair)" if step > 1 else " (all)") +
-                     f", all pairs <= {fn}+{fn} over the whole alphabet; the full product "
-                     f"{ln}+{ln} over 14 tokens (8.7M / 1.7G pairs) is subsampled this way")
+                     f", all {len(fseq)}^2 pairs <= {fn}+{fn} over the whole alphabet, {n33} sampled "
+                     f"pairs of the 3+3 product (8.7M pairs; 4+4 would be 1.7G): the exhaustive 3+3 / "
+                     f"4+4 product is subsampled this way because the localized-only checks and the "
+                     f"pairwise argument check factor")
     run_pairs(chk, model, "ANDROID-CHECK", uniq)
     # random longer pairs, judged by the oracle
     cases = []
